@@ -75,7 +75,7 @@ theorem qinv_sendOffer (s : Stack) (i : Nat) (r : Dest) (b : Bool) (hi : QInv s)
 
 theorem qinv_frame {s s' : Stack} (h : qpi s' = qpi s) (hi : QInv s) : QInv s' := qinv_of_qpi h hi
 
-theorem qinv_stepOffer (s : Stack) (tid : Nat) (t : TaskSt) (i : Nat) (hi : QInv s) : QInv (s.stepOffer tid t i) := by
+theorem qinv_stepOffer (s : Stack) (tid : Tid) (t : TaskSt) (i : Nat) (hi : QInv s) : QInv (s.stepOffer tid t i) := by
   unfold stepOffer
   simp only []
   have hc : ∀ X : Stack, QInv X → QInv (if X.tm.cyclicOfferDelay ≠ 0 then X.sendOffer i none true else X) := by
